@@ -1002,6 +1002,24 @@ fn bench_from_case(case: &Value) -> Result<(Bench, Vec<u64>, bool), Fail> {
 }
 
 fn check_tuple(case: &Value) -> PResult {
+	if let Some(len) = case["context_sized_for"].as_u64() {
+		// a genuine cycle of another length than required, on a context sized for that length
+		let var = Var::from_name(case["variant"].as_str().unwrap_or("")).ok_or_else(|| Fail::new("harness-bad-case", "unknown variant"))?;
+		let eb = case["edge_bits"].as_u64().unwrap_or(0) as u8;
+		let hdr = unhex(case["header"].as_str().unwrap_or(""));
+		let nonces: Vec<u64> = case["nonces"].as_array().map(|a| a.iter().filter_map(|x| x.as_u64()).collect()).unwrap_or_default();
+		global::set_local_chain_type(ChainTypes::Mainnet);
+		let r = (|| -> PResult {
+			let mut c = build_ctx(var, eb, len as usize)?;
+			let r = c.set_header_nonce(hdr.clone(), None, false).and_then(|_| c.verify(&Proof { edge_bits: eb, nonces: nonces.clone() }));
+			if r.is_ok() {
+				return Err(Fail::new(format!("wrong-count-cycle-accepted:{}", var.name()), format!("{} context sized for {} nonces (required 42) accepts the {}-cycle {:?}", var.name(), len, nonces.len(), nonces)));
+			}
+			Ok(())
+		})();
+		global::set_local_chain_type(ChainTypes::AutomatedTesting);
+		return r;
+	}
 	let (b, nonces, must_reject) = bench_from_case(case)?;
 	let mut p = Proof { edge_bits: b.eb, nonces: vec![] };
 	let st = Stats::default();
@@ -2002,6 +2020,52 @@ fn selector_part(ctx: &Ctx, fails: &Failures, st: &Stats) {
 						}
 						Ok(None) => {}
 						Err(f) => fails.push("tuple", f, b.case_json(&t, mr)),
+					}
+				}
+			}
+		}
+	}
+	// a GENUINE simple cycle of another length than the required 42, handed to a context that was
+	// sized for that length — which is how pow::verify_size builds its context (from the proof's
+	// own nonce count): "exactly the required number of nonces" must refuse it under every variant,
+	// whether the context comes from the selector or is built directly
+	{
+		global::set_local_chain_type(ChainTypes::Mainnet);
+		for (i, var) in [Var::Aroo, Var::Arood, Var::Aroom, Var::Arooz, Var::Atoo].into_iter().enumerate() {
+			for len in [2usize, 4, 6, 40, 44] {
+				let ebw = if len <= 6 { 8u8 } else { eb };
+				let Some((hdr, cy)) = find_cycle(var, ebw, len, &|k| seed_header(base.wrapping_add(100 + i as u64 * 10 + len as u64), k), 3000) else {
+					ev.class(&format!("wrong_count_no_{}_cycle_found", len));
+					continue;
+				};
+				let p = Proof { edge_bits: ebw, nonces: cy.clone() };
+				let mut ctxs: Vec<(String, Box<dyn PoWContext>)> = vec![];
+				match build_ctx(var, ebw, len) {
+					Ok(c) => ctxs.push(("directly built".into(), c)),
+					Err(f) => {
+						fails.push("tuple", f, json!({"variant": var.name(), "edge_bits": ebw, "proof_size": len}));
+						continue;
+					}
+				}
+				if var != Var::Atoo {
+					let height = HY / 2 + HY * i as u64;
+					if rules_variant("main", height, ebw) == Some(var) {
+						if let Ok(c) = global::create_pow_context::<u64>(height, ebw, len, 4) {
+							ctxs.push((format!("create_pow_context(main, height {})", height), c));
+						}
+					}
+				}
+				for (how, mut c) in ctxs {
+					let r = c.set_header_nonce(hdr.clone(), None, false).and_then(|_| c.verify(&p));
+					ev.eval();
+					ev.class("wrong_count_genuine_cycles_checked");
+					ev.nontrivial(&("wrong-count", var, len, how.len()));
+					if r.is_ok() {
+						fails.push(
+							"tuple",
+							Fail::new(format!("wrong-count-cycle-accepted:{}", var.name()), format!("{} ({} context sized for {} nonces, required 42): a genuine {}-cycle {:?} is accepted", var.name(), how, len, len, cy)),
+							json!({"variant": var.name(), "edge_bits": ebw, "proof_size": 42, "header": hex(&hdr), "nonces": cy, "must_reject": true, "context_sized_for": len}),
+						);
 					}
 				}
 			}
